@@ -1,9 +1,368 @@
-import PtVerif.Model.LoadersNsf
+import PtVerif.Proofs.LoadersNsfField
+import PtVerif.Proofs.LoadersMass
+import PtVerif.Model.LoaderTables
 import PtVerif.Generated.NsfTables
-/-! # C07 — placeholder while the pipeline is brought up -/
+import PtVerif.Generated.MassTables
+import PtVerif.Generated.Constants
+/-!
+# C07 — neutron data of every element and isotope are those of the embedded table
+
+Model: `PtVerif.Model.LoadersNsf` (`parseNsfLine`, `fixNumber`, `Nsf.loadText`; `Nsf.loadRows` =
+main pass, gap fills, imaginary table, energy-dependent tables, natural Lu), tied to nsf.py /
+nsf_tables.py by `harness/ptv/props/C07.py`.
+
+Part 1: theorems for **every** table (any rows, any number type).  Part 2: kernel-checked
+facts about the embedded tables (`Generated.NsfTables`, regenerated on every run).  Part 3: part 1
+on the embedded tables.  Part 4: the recorded finding D19 (Pu, Cm).
+
+Not covered: floating-point rounding; numpy's `interp` is modelled by `PtLoad.interp`; the
+string-level parse = generated rows is checked by the compiled driver.
+-/
 namespace PtVerif.C07
 open PtLoad
 
-theorem placeholder : fixNumber "<6.0E-6".toList = some (.plain ⟨60, 7⟩) := by decide
+/-! ## Part 1 — every table -/
+
+section generic
+variable {α : Type} [Add α] [Sub α] [Mul α] [Div α] [Neg α] [OfNat α 0] [NatCast α] [IntCast α]
+  [Transc α]
+
+/-- what a row's record holds: the seven numeric columns (uncertainties dropped, `<` and `*`
+    read as the bare number, blanks as `none`), the E flag, the abundance (0 for a half-life),
+    and the complex `b_c − i·σ_a/(2000·λ₀)` -/
+theorem record_of_row (lam0 : α) (nd : Nat → Option α) (r : NsfRow) :
+    (recOf lam0 nd r).b_c = r.b_c.val ∧ (recOf lam0 nd r).bp = r.bp.val ∧ (recOf lam0 nd r).bm = r.bm.val
+    ∧ (recOf lam0 nd r).coherent = r.coh.val ∧ (recOf lam0 nd r).incoherent = r.inc.val
+    ∧ (recOf lam0 nd r).total = r.tot.val ∧ (recOf lam0 nd r).absorption = r.abs.val
+    ∧ (recOf lam0 nd r).isE = r.isE
+    ∧ (recOf lam0 nd r).bcc = some (r.b_c.val, -((r.abs.val (α := α)).getD 0) / (((2000 : Nat) : α) * lam0))
+    ∧ (recOf lam0 nd r).abundance = (if r.a = 0 then some (0 : α) else (match r.p with
+                                                                  | none => some (0 : α)
+                                                                  | some u => (u.val : Option α))) := by
+  by_cases h : r.a = 0
+  · simp [recOf, rowRec, bcImag, h]
+  · simp [recOf, rowRec, bcImag, h]
+    cases r.p <;> rfl
+
+/-- **field_is_column (isotopes)**: the isotope of the (last) row with its key reports that
+    row's b+, b−, coherent, incoherent, absorption, E flag, abundance, complex b_c -/
+theorem iso_fields_are_columns (env : NsfEnv α) (t : NsfTables) (pre post : List NsfRow) (r : NsfRow)
+    (ht : t.rows = pre ++ r :: post) (ha : r.a ≠ 0)
+    (hlast : ∀ x ∈ post, x.a = 0 ∨ (x.z, x.a) ≠ (r.z, r.a)) :
+    ((Nsf.loadRows env t).isoNeutron r.z r.a).rowPart = (recOf env.lam0 env.nd r).rowPart :=
+  iso_row_fields env t pre post r ht ha hlast
+
+/-- **field_is_column (elements)** -/
+theorem el_fields_are_columns (env : NsfEnv α) (t : NsfTables) (pre post : List NsfRow) (r : NsfRow)
+    (ht : t.rows = pre ++ r :: post) (ha : r.a = 0) (hlast : ∀ x ∈ post, x.z = r.z → x.a ≠ 0) :
+    ((Nsf.loadRows env t).elNeutron r.z).rowPart = (recOf env.lam0 env.nd r).rowPart :=
+  el_row_fields env t pre post r ht ha hlast
+
+theorem iso_spin_is_column (env : NsfEnv α) (t : NsfTables) (pre post : List NsfRow) (r : NsfRow)
+    (ht : t.rows = pre ++ r :: post) (ha : r.a ≠ 0)
+    (hlast : ∀ x ∈ post, x.a = 0 ∨ (x.z, x.a) ≠ (r.z, r.a)) :
+    aget (r.z, r.a) (Nsf.loadRows env t).spin = some r.spin := iso_row_spin env t pre post r ht ha hlast
+
+/-- `b_c` is the column except for the record the Eu-151 gap fill targets, which gets
+    `sqrt(coherent/(4π/100))` -/
+theorem b_c_is_column_or_gap_fill (env : NsfEnv α) (t : NsfTables) (i : Nat) (r : NsfRow)
+    (h : t.rows[i]? = some r) :
+    ((Nsf.loadRows env t).getRec (i + 1)).b_c
+      = if i + 1 = (ptrs t.rows).isoId 63 151
+        then (recOf env.lam0 env.nd r).coherent.map fun c => Transc.sqrt (c / fourPi100)
+        else (recOf env.lam0 env.nd r).b_c := b_c_of_index env t i r h
+
+/-- `total` is the column except for the record the Xe gap fill targets: coherent + incoherent -/
+theorem total_is_column_or_gap_fill (env : NsfEnv α) (t : NsfTables) (i : Nat) (r : NsfRow)
+    (h : t.rows[i]? = some r) :
+    ((Nsf.loadRows env t).getRec (i + 1)).total
+      = if i + 1 = (ptrs t.rows).elId 54
+        then (match (recOf env.lam0 env.nd r).coherent, (recOf env.lam0 env.nd r).incoherent with
+              | some c, some i => some (c + i)
+              | _, _ => none)
+        else (recOf env.lam0 env.nd r).total := total_of_index env t i r h
+
+/-- the record a row of the imaginary table names reports its three values -/
+theorem imaginary_lengths_served (env : NsfEnv α) (t : NsfTables) (pre post : List NsfIRow) (x : NsfIRow)
+    (ht : t.irows = pre ++ x :: post)
+    (h : ∀ y ∈ post, itarget (ptrs t.rows) y ≠ itarget (ptrs t.rows) x) :
+    ((Nsf.loadRows env t).getRec (itarget (ptrs t.rows) x)).imag
+      = (x.b_c_i.val, x.bp_i.val, x.bm_i.val) := imag_of_row env t pre post x ht h
+
+/-- … and a record the imaginary table does not name has none -/
+theorem imaginary_lengths_absent (env : NsfEnv α) (t : NsfTables) (i : Nat) (r : NsfRow)
+    (hr : t.rows[i]? = some r) (h : ∀ y ∈ t.irows, itarget (ptrs t.rows) y ≠ i + 1) :
+    ((Nsf.loadRows env t).getRec (i + 1)).imag = (none, none, none) := imag_none_of_index env t i r hr h
+
+/-- **elements without a row of their own share the `Neutron` object of their first listed
+    isotope** – in particular a single-isotope element reports its isotope's record -/
+theorem single_isotope_element_shares_record (env : NsfEnv α) (t : NsfTables) (pre post : List NsfRow)
+    (r : NsfRow) (ht : t.rows = pre ++ r :: post) (ha : r.a ≠ 0)
+    (hpre : ∀ x ∈ pre, x.z ≠ r.z) (hpost : ∀ x ∈ post, x.z = r.z → x.a ≠ 0)
+    (hlast : ∀ x ∈ post, x.a = 0 ∨ (x.z, x.a) ≠ (r.z, r.a)) :
+    (Nsf.loadRows env t).elId r.z = (Nsf.loadRows env t).isoId r.z r.a
+      ∧ (Nsf.loadRows env t).elId r.z ≠ 0 :=
+  element_shares_first_isotope env t pre post r ht ha hpre hpost hlast
+
+/-- **atoms not in the table report that no SLD is available**: an element no row mentions and
+    an isotope without a row point to the shared default record, whose `has_sld()` is false -/
+theorem absent_element_has_no_sld (env : NsfEnv α) (t : NsfTables) (z : Nat)
+    (h : ∀ x ∈ t.rows, x.z ≠ z) : ((Nsf.loadRows env t).elNeutron z).hasSld = false := by
+  unfold NsfState.elNeutron
+  rw [absent_element_default env t z h]
+  exact default_has_no_sld env t
+
+theorem absent_isotope_has_no_sld (env : NsfEnv α) (t : NsfTables) (z a : Nat)
+    (h : ∀ x ∈ t.rows, x.a = 0 ∨ (x.z, x.a) ≠ (z, a)) :
+    ((Nsf.loadRows env t).isoNeutron z a).hasSld = false := by
+  unfold NsfState.isoNeutron
+  rw [absent_isotope_default env t z a h]
+  exact default_has_no_sld env t
+
+/-- every energy-dependent table is attached to its atom, converted and reversed -/
+theorem energy_table_attached (env : NsfEnv α) (t : NsfTables) (pre post : List EDTable) (e : EDTable)
+    (id : Nat) (ht : t.ed = pre ++ e :: post) (he : etarget env.zOf (ptrs t.rows) e = some id)
+    (h : ∀ y ∈ post, etarget env.zOf (ptrs t.rows) y ≠ some id) (hlu : id ≠ (ptrs t.rows).elId 71) :
+    ((Nsf.loadRows env t).getRec id).table = some (edTable env.ef e.rows) :=
+  ed_table_of_entry env t pre post e id ht he h hlu
+
+end generic
+
+/-- increasing energies ⇒ (after eV → Å and reversal) increasing wavelengths -/
+theorem table_reversed_increasing (ef : ℝ) (hef : 0 < ef) (rows : List (Dec × Dec × Dec))
+    (h : decIncreasing (rows.map (·.1)) = true) :
+    ((edTable ef rows).map Prod.fst).Pairwise (· < ·) := PtLoad.table_reversed_increasing ef hef rows h
+
+/-- **each energy-dependent entry returns, at every tabulated energy, exactly the tabulated
+    complex scattering length** -/
+theorem node_returns_tabulated (ef : ℝ) (hef : 0 < ef) (rows : List (Dec × Dec × Dec))
+    (h : decIncreasing (rows.map (·.1)) = true) (r : Dec × Dec × Dec) (hr : r ∈ rows) :
+    interp (neutronWavelength ef (r.1.toNum * ((1000 : Nat) : ℝ))) (edTable ef rows)
+      = some ((r.2.1.toNum : ℝ), (r.2.2.toNum : ℝ)) := ed_node_returns_tabulated ef hef rows h r hr
+
+/-- `numpy.interp` at a node of any increasing table, over any ordered field -/
+theorem interp_at_node {α : Type} [Field α] [LinearOrder α] [IsStrictOrderedRing α]
+    (tbl : List (α × Cx α)) (hs : (tbl.map Prod.fst).Pairwise (· < ·)) (p : α × Cx α) (hp : p ∈ tbl) :
+    interp p.1 tbl = some p.2 := interp_node tbl hs p hp
+
+/-! `fix_number` on the forms the table uses -/
+example : fixNumber "35.24(2)*".toList = some (.valUnc ⟨3524, 2⟩ ⟨2, 2⟩) := by decide
+example : fixNumber "<6.0E-6".toList = some (.plain ⟨60, 7⟩) := by decide
+example : fixNumber "".toList = some .missing := by decide
+example : fixNumber "2065.(35.)".toList = some (.valUnc ⟨2065, 0⟩ ⟨35, 0⟩) := by decide
+example : (parseNsfLine "4-Be-9,100,3/2,7.79(1),,,,7.63(2),0.0018(9),7.63(2),0.0076(8)".toList).map
+    (fun r => (r.z, r.a, r.p, r.spin, r.b_c, r.isE)) =
+    some (4, 9, some (.plain ⟨100, 0⟩), "3/2", .valUnc ⟨779, 2⟩ ⟨1, 2⟩, false) := by decide
+
+/-! ## Part 2 — the embedded tables (kernel-checked on every run) -/
+
+def nsfKey (r : NsfRow) : Nat × Nat := (r.z, r.a)
+
+/-- `nsftable`: keys `(Z, A)` (A = 0 for the element row) strictly increasing, hence distinct;
+    an element row precedes its isotopes -/
+theorem nsf_keys_sorted : strictSorted (PtGen.nsfRows.map nsfKey) = true := by decide +kernel
+
+/-- every row names an element of the table by number and symbol and has an absorption value
+    (`-None` would be a TypeError) -/
+theorem nsf_rows_ok : PtGen.nsfRows.all (fun r => symOf r.z == some r.sym && r.abs != .missing) = true := by
+  decide +kernel
+
+/-- every isotope row names a nuclide of the isotope-mass table (so `add_isotope` creates no
+    mass-less isotope) -/
+theorem nsf_isotopes_have_mass :
+    PtGen.nsfRows.all (fun r => r.a == 0 || r.z == 0 || (rowOf (groupByZ PtGen.isoMassRows) r.z r.a).isSome) = true := by
+  decide +kernel
+
+/-- every tabulated total cross section is a positive number -/
+theorem totals_positive :
+    PtGen.nsfRows.all (fun r => r.tot == .missing || decide r.tot.Pos) = true := by decide +kernel
+
+/-- pointer check: every row's atom points to the record of that very row -/
+def ownPointers (p : Ptrs) (rows : List NsfRow) : Bool :=
+  (List.range rows.length).all fun i => match rows[i]? with
+    | some r => (if r.a = 0 then p.elId r.z else p.isoId r.z r.a) == i + 1
+    | none => false
+
+theorem every_atom_owns_its_row : ownPointers (ptrs PtGen.nsfRows) PtGen.nsfRows = true := by decide +kernel
+
+/-- elements without a row of their own and exactly one isotope row -/
+def singleIsotope (rows : List NsfRow) (z : Nat) : Option Nat :=
+  match rows.filter (fun r => r.z == z) with
+  | [r] => if r.a = 0 then none else some r.a
+  | _ => none
+
+/-- **every single-isotope element points to its isotope's record** -/
+theorem single_isotope_elements_share :
+    allZ.all (fun z => match singleIsotope PtGen.nsfRows z with
+      | some a => (ptrs PtGen.nsfRows).elId z == (ptrs PtGen.nsfRows).isoId z a
+                  && (ptrs PtGen.nsfRows).elId z != 0
+      | none => true) = true := by decide +kernel
+
+/-- the Xe gap: the element row of Xe has no total but coherent and incoherent values, and the
+    gap fill targets exactly that row's record -/
+theorem xe_gap :
+    (match PtGen.nsfRows[(ptrs PtGen.nsfRows).elId 54 - 1]? with
+     | some r => r.z == 54 && r.a == 0 && r.tot == .missing && decide r.coh.Pos && r.inc != .missing
+     | none => false) = true := by decide +kernel
+
+/-- the Eu-151 gap: the row has no b_c but a coherent cross section -/
+theorem eu_gap :
+    (match PtGen.nsfRows[(ptrs PtGen.nsfRows).isoId 63 151 - 1]? with
+     | some r => r.z == 63 && r.a == 151 && r.b_c == .missing && decide r.coh.Pos
+     | none => false) = true := by decide +kernel
+
+/-- every row of the imaginary table names an atom that has a row of its own, and no two rows
+    name the same record -/
+theorem imag_targets :
+    (PtGen.nsfIRows.map (itarget (ptrs PtGen.nsfRows))).all (· != 0) = true
+    ∧ (PtGen.nsfIRows.map (itarget (ptrs PtGen.nsfRows))).Nodup := by decide +kernel
+
+/-- … and it names it by its own key: the target record is the one built from the row `(Z, A)` -/
+theorem imag_targets_are_rows :
+    PtGen.nsfIRows.all (fun x => match PtGen.nsfRows[itarget (ptrs PtGen.nsfRows) x - 1]? with
+      | some r => r.z == x.z && r.a == x.a
+      | none => false) = true := by decide +kernel
+
+/-- energy-dependent tables: energies positive and strictly increasing in every table -/
+theorem energies_increasing :
+    PtGen.edTables.all (fun e => decIncreasing (e.rows.map (·.1))) = true := by decide +kernel
+
+/-- each table names an atom that has a row of its own; no two name the same record; none is
+    natural Lu's (which is mixed afterwards) -/
+theorem ed_targets :
+    (PtGen.edTables.map (etarget zOf (ptrs PtGen.nsfRows))).all
+        (fun t => match t with | some id => id != 0 && id != (ptrs PtGen.nsfRows).elId 71 | none => false) = true
+    ∧ (PtGen.edTables.map (etarget zOf (ptrs PtGen.nsfRows))).Nodup := by decide +kernel
+
+theorem ed_targets_are_rows :
+    PtGen.edTables.all (fun e => match etarget zOf (ptrs PtGen.nsfRows) e with
+      | some id => (match PtGen.nsfRows[id - 1]? with
+          | some r => zOf e.sym == some r.z && r.a == e.a
+          | none => false)
+      | none => false) = true := by decide +kernel
+
+/-! ## Part 3 — part 1 on the embedded tables -/
+
+section generated
+variable {α : Type} [Add α] [Sub α] [Mul α] [Div α] [Neg α] [OfNat α 0] [NatCast α] [IntCast α]
+  [Transc α]
+
+/-- the record an atom of the embedded table reports -/
+def atomRec (st : NsfState α) (z a : Nat) : NRec α :=
+  if a = 0 then st.elNeutron z else st.isoNeutron z a
+
+theorem atomRec_of_row (env : NsfEnv α) (i : Nat) (r : NsfRow) (h : PtGen.nsfRows[i]? = some r) :
+    atomRec (Nsf.loadRows env PtGen.nsfTables) r.z r.a = (Nsf.loadRows env PtGen.nsfTables).getRec (i + 1) := by
+  have hi : i < PtGen.nsfRows.length := (List.getElem?_eq_some_iff.mp h).1
+  have := List.all_eq_true.mp every_atom_owns_its_row i (List.mem_range.mpr hi)
+  rw [h] at this
+  simp only [beq_iff_eq] at this
+  unfold atomRec NsfState.elNeutron NsfState.isoNeutron
+  split
+  · rename_i ha
+    rw [loadRows_elId]; rw [if_pos ha] at this
+    show (Nsf.loadRows env PtGen.nsfTables).getRec ((ptrs PtGen.nsfRows).elId r.z) = _
+    rw [this]
+  · rename_i ha
+    rw [loadRows_isoId]; rw [if_neg ha] at this
+    show (Nsf.loadRows env PtGen.nsfTables).getRec ((ptrs PtGen.nsfRows).isoId r.z r.a) = _
+    rw [this]
+
+/-- **all 364 rows**: the element or isotope a row names reports that row's b+, b−, coherent,
+    incoherent, absorption, E flag, abundance and complex b_c -/
+theorem generated_fields (env : NsfEnv α) (i : Nat) (r : NsfRow) (h : PtGen.nsfRows[i]? = some r) :
+    (atomRec (Nsf.loadRows env PtGen.nsfTables) r.z r.a).rowPart = (recOf env.lam0 env.nd r).rowPart := by
+  rw [atomRec_of_row env i r h]
+  exact record_of_index env PtGen.nsfTables i r h
+
+/-- … its b_c, except Eu-151 which gets the gap fill -/
+theorem generated_b_c (env : NsfEnv α) (i : Nat) (r : NsfRow) (h : PtGen.nsfRows[i]? = some r)
+    (hne : (r.z, r.a) ≠ (63, 151)) :
+    (atomRec (Nsf.loadRows env PtGen.nsfTables) r.z r.a).b_c = r.b_c.val := by
+  rw [atomRec_of_row env i r h, b_c_of_index env PtGen.nsfTables i r h]
+  have hk := eu_gap
+  split
+  · rename_i he
+    exfalso
+    have : (ptrs PtGen.nsfTables.rows).isoId 63 151 - 1 = i := by
+      have : (ptrs PtGen.nsfTables.rows).isoId 63 151 = i + 1 := he.symm
+      omega
+    have hrows : PtGen.nsfTables.rows = PtGen.nsfRows := rfl
+    rw [hrows] at this
+    rw [this, h] at hk
+    simp only [Bool.and_eq_true, beq_iff_eq, decide_eq_true_eq] at hk
+    exact hne (by rw [hk.1.1.1, hk.1.1.2])
+  · exact (record_of_row env.lam0 env.nd r).1
+
+/-- … and its total, except Xe which gets the gap fill -/
+theorem generated_total (env : NsfEnv α) (i : Nat) (r : NsfRow) (h : PtGen.nsfRows[i]? = some r)
+    (hne : (r.z, r.a) ≠ (54, 0)) :
+    (atomRec (Nsf.loadRows env PtGen.nsfTables) r.z r.a).total = r.tot.val := by
+  rw [atomRec_of_row env i r h, total_of_index env PtGen.nsfTables i r h]
+  have hk := xe_gap
+  split
+  · rename_i he
+    exfalso
+    have : (ptrs PtGen.nsfTables.rows).elId 54 - 1 = i := by
+      have : (ptrs PtGen.nsfTables.rows).elId 54 = i + 1 := he.symm
+      omega
+    have hrows : PtGen.nsfTables.rows = PtGen.nsfRows := rfl
+    rw [hrows] at this
+    rw [this, h] at hk
+    simp only [Bool.and_eq_true, beq_iff_eq, decide_eq_true_eq] at hk
+    exact hne (by rw [hk.1.1.1.1, hk.1.1.1.2])
+  · exact (record_of_row env.lam0 env.nd r).2.2.2.2.2.1
+
+/-- every single-isotope element of the embedded table reports its isotope's record -/
+theorem generated_single_isotope (env : NsfEnv α) (z a : Nat)
+    (h : singleIsotope PtGen.nsfRows z = some a) (hz : z ∈ allZ) :
+    (Nsf.loadRows env PtGen.nsfTables).elNeutron z = (Nsf.loadRows env PtGen.nsfTables).isoNeutron z a := by
+  have := List.all_eq_true.mp single_isotope_elements_share z hz
+  rw [h] at this
+  simp only [Bool.and_eq_true, beq_iff_eq] at this
+  unfold NsfState.elNeutron NsfState.isoNeutron
+  rw [loadRows_elId, loadRows_isoId]
+  show (Nsf.loadRows env PtGen.nsfTables).getRec ((ptrs PtGen.nsfRows).elId z)
+    = (Nsf.loadRows env PtGen.nsfTables).getRec ((ptrs PtGen.nsfRows).isoId z a)
+  rw [this.1]
+
+end generated
+
+/-! ## Part 4 — finding D19: an element with several isotope rows and no row of its own
+
+The property says atoms not in the table report that no SLD is available.  The elements Pu and
+Cm have no row, but three isotope rows each; `nsf.init` gives them the record of the first one
+(`if element.neutron is missing`).  The full statement is therefore false on the embedded
+table; what holds is the statement restricted to elements no row mentions
+(`absent_element_has_no_sld`) together with `single_isotope_element_shares_record`. -/
+
+/-- full strength: an element without a row of its own and without exactly one isotope row
+    points to the default record -/
+def element_without_row_has_no_record_full : Prop :=
+  ∀ z, (∀ r ∈ PtGen.nsfRows, ¬(r.z = z ∧ r.a = 0)) → singleIsotope PtGen.nsfRows z = none →
+    (ptrs PtGen.nsfRows).elId z = 0
+
+/-- what is proved: elements that no row mentions at all -/
+theorem element_without_row_has_no_record_partial (z : Nat) (h : ∀ r ∈ PtGen.nsfRows, r.z ≠ z) :
+    (ptrs PtGen.nsfRows).elId z = 0 := by
+  have := absent_element_default (α := ℝ) (env := ⟨symOf, zOf, fun _ => none, fun _ _ => false, none, none, 0, 0⟩)
+    PtGen.nsfTables z h
+  rw [loadRows_elId] at this
+  exact this
+
+/-- Pu (Z = 94) refutes the full statement: it shares Pu-239's record -/
+theorem element_without_row_has_no_record_counterexample : ¬ element_without_row_has_no_record_full := by
+  intro h
+  have h94 := h 94 (by decide +kernel) (by decide +kernel)
+  have : (ptrs PtGen.nsfRows).elId 94 = (ptrs PtGen.nsfRows).isoId 94 239
+      ∧ (ptrs PtGen.nsfRows).elId 94 ≠ 0 := by decide +kernel
+  exact this.2 h94
+
+/-! non-vacuity -/
+example : ∃ r ∈ PtGen.nsfRows, r.z = 4 ∧ r.a = 9 ∧ singleIsotope PtGen.nsfRows 4 = some 9 := by
+  decide +kernel
+example : PtGen.edTables.length = 14 ∧ PtGen.nsfIRows.length = 16 ∧ PtGen.nsfRows.length = 364 := by
+  decide +kernel
+example : ∀ r ∈ PtGen.nsfRows, r.z ≠ 85 := by decide +kernel   -- At: no neutron data at all
 
 end PtVerif.C07
